@@ -8,7 +8,7 @@ and the intent encoded in the variant names. Later matrix files override earlier
 Prints anything that contradicts the intent (a miss or an alarm on a benign variant); never edits checks."""
 import sys,json,re,os,glob
 V=os.path.dirname(os.path.dirname(os.path.abspath(__file__)))
-REGRESS={'D1':['C03','C04'],'D2':['C03','C05'],'D3':['C03'],'D4':['C04'],'D5':['C06'],'D6':['C16'],'D7':['C12'],'D8':['C14'],'D9':['C17'],'D10':['C03'],'D11':['C18'],'K1':['C03'],'D12':['C13']}
+REGRESS={'D1':['C03','C04'],'D2':['C03','C05'],'D3':['C03'],'D4':['C04'],'D5':['C06'],'D6':['C16'],'D7':['C12'],'D8':['C14'],'D9':['C17'],'D10':['C03'],'D11':['C18'],'K1':['C03'],'D12':['C13'],'D13':['C08']}
 ALL=['C%02d'%i for i in range(1,21)]
 obs={}
 for mf in sys.argv[1:]:
